@@ -382,6 +382,10 @@ def section_secondq():
         ("matrix-valued, two blocks", [a], sympy.Matrix([[Na, 0], [0, Na + R(5, 3)]]), sympy.Matrix([[a + Dagger(a), 2 * a], [2 * Dagger(a), Na]]), 12, 3, [0, 1]),
         ("matrix-valued, two blocks, immutable sympy matrices", [a], sympy.ImmutableMatrix([[Na, 0], [0, Na + R(5, 3)]]),
          sympy.ImmutableMatrix([[a + Dagger(a), 2 * a], [2 * Dagger(a), Na]]), 12, 3, [0, 1]),
+        ("matrix-valued, two blocks, the second block of H_0 identically zero", [a], sympy.Matrix([[Na + R(5, 3), 0], [0, 0]]),
+         sympy.Matrix([[0, a + 2 * Dagger(a)], [Dagger(a) + 2 * a, 0]]), 12, 3, [0, 1]),
+        ("two-level system with c-number H_0 (zero second block) and operator-valued coupling", [a], sympy.Matrix([[R(7, 3), 0], [0, 0]]),
+         sympy.Matrix([[0, a + Dagger(a)], [a + Dagger(a), 0]]), 12, 3, [0, 1]),
     ]
     import os
     import time
@@ -467,6 +471,27 @@ def section_secondq():
         except Exception:
             import traceback
             fail("secondq", "model raised", model=name, error=traceback.format_exc()[-900:])
+    # value types of the perturbation next to an operator-valued H_0: numpy arrays (float, int), sparse arrays and sympy matrices of c-numbers are the same series
+    from pymablock.series import zero
+    H0v = sympy.Matrix([[Na, 0], [0, Na + R(5, 3)]])
+    H2v = sympy.Matrix([[0, a], [Dagger(a), 0]])
+    refv = None
+    for vname, conv in (("sympy", lambda m: sympy.Matrix(m.tolist())), ("ndarray int", lambda m: m), ("ndarray float", lambda m: m.astype(float)),
+                        ("sparse array", lambda m: __import__("scipy.sparse").sparse.csr_array(m.astype(float)))):
+        cases += 1
+        try:
+            Htv = block_diagonalize({(0, 0): H0v, (1, 0): conv(np.array([[1, 2], [2, -1]])), (0, 1): H2v}, subspace_indices=[0, 1])[0]
+            vals = [sympy.Matrix(Htv[i, i, n, m]).applyfunc(lambda x: NOF.from_expr(x).simplify()) if Htv[i, i, n, m] is not zero else None
+                    for i in range(2) for n, m in ((1, 0), (2, 0), (1, 1), (2, 1))]
+            if refv is None:
+                refv = vals
+            else:
+                for g_, r_ in zip(vals, refv):
+                    if (g_ is None) != (r_ is None) or (g_ is not None and not all(NOF.from_expr(sympy.nsimplify(x - y, rational=True)).simplify().is_zero for x, y in zip(g_, r_))):
+                        fail("secondq", "operator-valued H_0: the value type of a c-number perturbation changes H_tilde", value_type=vname, got=str(g_)[:200], want=str(r_)[:200])
+                        break
+        except Exception as ex:  # noqa: BLE001
+            fail("secondq", "operator-valued H_0 with a numeric perturbation raised", value_type=vname, error=repr(ex)[:300])
     # operator-valued elimination masks (incl. a symbolic power) against boolean masks on the truncated matrices
     k = sympy.symbols("k", integer=True, nonnegative=True)
     D, N = 12, 3
